@@ -246,6 +246,11 @@ structure B2MOK (ext : Nat → Nat) (dvars : List MVar) (mb : Mgr) (out : B2MOut
 theorem B2MOK.exact {ext : Nat → Nat} {dvars : List MVar} {mb : Mgr} {out : B2MOut} {mb' : Mgr}
     (h : B2MOK ext dvars mb out mb') : MRefExact out.mdd (fun _ => 0) := h.reach.inv.2.1
 
+/-- the MDD manager returned by the conversion has no recorded schedule left, so the total forms
+of the `ite` / `apply` theorems apply to it -/
+theorem B2MOK.sched {ext : Nat → Nat} {dvars : List MVar} {mb : Mgr} {out : B2MOut} {mb' : Mgr}
+    (h : B2MOK ext dvars mb out mb') : out.mdd.sched = [] := h.reach.sched_nil
+
 /-- C15, conversion: for a BDD manager satisfying the reordering invariant (manager invariant,
 name maps, exact counts for the ledger `ext`, roots held), dynamic reordering enabled or not,
 and a proper `dvars` (levels `0..n-1`, bit lists partitioning the declared variables),
